@@ -387,11 +387,20 @@ def check_case(ctx, case, count=True):
                 viol = d + " (oriented pole)"
         # 9-component susceptibility with padded slots
         rows = [(ten[0][0], ten[1][0], ten[2][0], ten[3][0])]
+        mix = case.get("mix")        # a per-axis Lorentz pole in the same 9-component stack (row rule of the expansion)
+        mixpole = None
+        if mix:
+            mixpole = make_pole("lor", [tuple(p) for p in mix])
+            mt = impl_coef(D.compute_pole_coefficients_tensor, [mixpole], dt)
+            if mt != "error":
+                rows.append((mt[0][0], mt[1][0], mt[2][0], mt[3][0]))
+            else:
+                mixpole = None
         zero = (np.zeros(3), np.zeros(3), np.zeros(9), np.zeros(9))
         for i in range(pad):
             rows.insert(ctx_pad_pos(case, i, len(rows)), zero)
         st = [np.stack([r[i] for r in rows]) for i in range(4)]
-        model9 = M()["fdtdx"].DispersionModel(poles=(pole,))
+        model9 = M()["fdtdx"].DispersionModel(poles=(pole,) if mixpole is None else (pole, mixpole))
         flat = [x for r in rows for part in r for x in part]
         reps9 = yield (["chi9 " + _f(w) + " " + _f(dt) + " " + " ".join(_f(float(x)) for x in flat) for w in freqs])
         for wi, w in enumerate(freqs):
@@ -405,6 +414,10 @@ def check_case(ctx, case, count=True):
             un = np.asarray(pole.orientation)
             ana = analytic(kind, tuple(pars[0]), w) * np.outer(un, un).reshape(-1)
             dd, _, _ = denom_of(kind, tuple(pars[0]), w)
+            if mixpole is not None:
+                for ax in range(3):
+                    ana[4 * ax] += analytic("lor", tuple(mix[ax]), w)
+                    dd = min(dd, denom_of("lor", tuple(mix[ax]), w)[0])
             ctx.impl_property_evals += 1
             if dd * dt * dt >= 1e-4 and not np.max(np.abs(impl_chi - ana)) <= 1e-9 * max(float(np.max(np.abs(ana))), 1e-300) and not viol:
                 viol = (f"susceptibility_from_coefficients (9-component) differs from chi(omega) u u^T of the declared {kind} "
@@ -517,6 +530,8 @@ def gen_case(rng, i):
             if rng.chance(0.05):
                 u = [0.0, 0.0, 0.0]
             case["orient"] = u
+            if rng.chance(0.5):
+                case["mix"] = [list(gen_axis(rng, "lor", dt, gdt=rng.uniform(0.05, 1.0))) for _ in range(3)]
         case["pars"] = [par]
     p0 = tuple(case["pars"][0])
     case["freqs"] = pick_freqs(rng, kind, p0, dt)
@@ -535,7 +550,7 @@ def boundary_w0(rng, dt):
 
 
 def run(ctx):
-    n = ctx.scale(200, 2000)
+    n = ctx.scale(360, 3000)
     cases = [gen_case(ctx.rng, i) for i in range(n)]
     ctx.samples.append({k: cases[7][k] for k in ("kind", "pars", "dt", "pad")})
     for lo in range(0, n, 250):
